@@ -206,6 +206,13 @@ Theorem tables_ok :
   gen_errors = [] /\ writer_validates_first = true /\ helper_fingerprints = pinned_fingerprints.
 Proof. repeat split; reflexivity. Qed.
 
+(* only the validating setter touches the store key; the setters are called only from genesis
+   import, the permission-gated message handler, the proposal handler and each other *)
+Theorem write_paths_ok :
+  store_key_users = pinned_store_key_users /\ setter_callers = pinned_setter_callers /\
+  msg_gate_ok = true /\ msg_gate_perm = pinned_gate_perm.
+Proof. repeat split; reflexivity. Qed.
+
 Definition example_props : props :=
   mkProps 100 1000000 (Some 330000000000000000) 300 300 2 1 true 10 110 10 (Some 500000000000000000)
     1 1000000 600 false false 200 "moniker,username" 6000000 (Some 500000000000000000)
